@@ -404,7 +404,7 @@ impl Op {
 }
 
 // ---------------------------------------------------------------- traces
-#[derive(Clone, Debug, Default, PartialEq, Eq)]
+#[derive(Clone, Debug, PartialEq, Eq)]
 pub struct Knobs {
     pub slots: u64,
     /// percent probability of handing the baton over at an in-conversion yield point
@@ -413,6 +413,20 @@ pub struct Knobs {
     pub heap: u64,
     /// fresh-process references to take in this run
     pub iso: u64,
+    /// 1 = repeat every conversion at once on the same thread (I3a). Off in half of the runs:
+    /// the repetition is itself a call, it turns every first use into "miss, then hit" and so
+    /// keeps state that needs a run of *different* calls (an LRU filling up) from ever arising
+    pub repeat: u64,
+    /// rounds of the free-running stress phase after the run (0 = none): the run's conversions are
+    /// re-executed concurrently by real, unscheduled threads and compared with their quiescent
+    /// results. A scout for races inside added code; NOT deterministic, see DESIGN.md §2.8
+    pub stress: u64,
+}
+
+impl Default for Knobs {
+    fn default() -> Self {
+        Knobs { slots: 0, preempt: 0, heap: 0, iso: 0, repeat: 1, stress: 0 }
+    }
 }
 
 #[derive(Clone, Debug, Default, PartialEq, Eq)]
@@ -439,7 +453,7 @@ impl Trace {
         let _ = writeln!(s, "profile {}", self.profile);
         for r in &self.runs {
             let k = &r.knobs;
-            let _ = writeln!(s, "run seed={} slots={} preempt={} heap={} iso={}", r.seed, k.slots, k.preempt, k.heap, k.iso);
+            let _ = writeln!(s, "run seed={} slots={} preempt={} heap={} iso={} repeat={} stress={}", r.seed, k.slots, k.preempt, k.heap, k.iso, k.repeat, k.stress);
             s.push_str("pre\n");
             for op in &r.pre {
                 s.push_str(&op.to_line());
@@ -489,6 +503,8 @@ impl Trace {
                             "preempt" => r.knobs.preempt = v,
                             "heap" => r.knobs.heap = v,
                             "iso" => r.knobs.iso = v,
+                            "repeat" => r.knobs.repeat = v,
+                            "stress" => r.knobs.stress = v,
                             _ => return Err(format!("unknown run key {k}")),
                         }
                     }
@@ -590,6 +606,11 @@ struct Gen<'a> {
     /// that concurrently running and successive conversions keep switching between a few
     /// *different* configurations (what a configuration-keyed cache would have to get right)
     palette: Vec<CfgI>,
+    /// sweep scenario: walk through a long palette in order (with occasional returns to an
+    /// earlier entry) instead of drawing from it at random: a long run of *distinct*
+    /// configurations followed by a revisit is what fills and evicts bounded caches
+    sweep: bool,
+    sweep_pos: u64,
     /// slots that probably hold an object when the op being generated runs (generation-time
     /// guess: constructors and conversions are assumed to succeed, other threads are ignored)
     populated: Vec<bool>,
@@ -600,6 +621,20 @@ impl Gen<'_> {
         // slots of class c: c, c+6, c+12, ... below self.slots
         let n = (self.slots + N_CLASSES - 1 - class) / N_CLASSES;
         class + N_CLASSES * self.r.below(n.max(1))
+    }
+    fn palette_pick(&mut self) -> CfgI {
+        let n = self.palette.len() as u64;
+        if !self.sweep {
+            return self.palette[self.r.below(n) as usize];
+        }
+        let i = if self.sweep_pos > 2 && self.r.pct(20) {
+            // return to an entry used a while ago
+            self.sweep_pos - 1 - self.r.below(self.sweep_pos.min(n))
+        } else {
+            self.sweep_pos += 1;
+            self.sweep_pos - 1
+        };
+        self.palette[(i % n) as usize]
     }
     /// a source slot of `class`, preferring one that is probably populated
     fn src_of_class(&mut self, class: u64) -> u64 {
@@ -636,7 +671,7 @@ impl Gen<'_> {
     }
     fn cfg(&mut self, ty: u64) -> CfgI {
         if !self.palette.is_empty() {
-            let mut c = self.r.pick(&self.palette.clone());
+            let mut c = self.palette_pick();
             if ty == 0 && self.r.pct(70) {
                 c.bd = 8;
             }
@@ -805,7 +840,7 @@ impl Gen<'_> {
         op.t = self.meta(N_SUP_TRCS, TRCS.len() as u64, unspec);
         op.p = self.meta(N_SUP_PRIS, PRIS.len() as u64, unspec);
         if !self.palette.is_empty() {
-            let c = self.r.pick(&self.palette.clone());
+            let c = self.palette_pick();
             op.t = c.tc;
             op.p = c.cp;
         }
@@ -854,7 +889,7 @@ impl Gen<'_> {
             op.t = self.meta(N_SUP_TRCS, TRCS.len() as u64, unspec);
             op.p = self.meta(N_SUP_PRIS, PRIS.len() as u64, unspec);
             if !self.palette.is_empty() {
-                let c = self.r.pick(&self.palette.clone());
+                let c = self.palette_pick();
                 op.t = c.tc;
                 op.p = c.cp;
             }
@@ -938,9 +973,70 @@ impl Gen<'_> {
     }
 }
 
+/// Miri workload for C07: instead of a random programme, two threads walk through every
+/// (sample type x subsampling) combination of the property's quantifier with tiny well-formed
+/// frames - construct, decode to a float image, encode back with the same subsampling - so
+/// that one Miri execution passes every plane-indexing path the library has (or a change
+/// adds) at least once. Sizes, paddings, targets and metadata come from the seed.
+fn generate_battery(seed: u64, r: &mut Rng) -> RunTrace {
+    let slots = 12;
+    let mut threads: Vec<Vec<Op>> = vec![Vec::new(), Vec::new()];
+    for ty in 0..2u64 {
+        let mut combos: Vec<(u64, u64)> = (0..3).flat_map(|x| (0..3).map(move |y| (x, y))).collect();
+        // seeded order
+        for i in (1..combos.len()).rev() {
+            combos.swap(i, r.below(i as u64 + 1) as usize);
+        }
+        for (ssx, ssy) in combos {
+            let mut op = Op::blank(Kind::NewYuv);
+            op.which = ty;
+            op.slot = ty;
+            let bd = if ty == 0 { 8 } else { r.pick(&[8u64, 10, 12, 16]) };
+            op.cfg = CfgI { bd, ssx, ssy, full: r.below(2), mc: 1 + r.below(N_STD_MATS), tc: 1 + r.below(N_SUP_TRCS), cp: 1 + r.below(10) };
+            let (lw, lh) = ((1 << ssx) * r.range(1, 2), (1 << ssy) * r.range(1, 2));
+            op.geo[0] = lw;
+            op.geo[1] = lh;
+            for pl in [2usize, 6] {
+                op.geo[pl] = lw >> ssx;
+                op.geo[pl + 1] = lh >> ssy;
+                op.geo[pl + 2] = ssx;
+                op.geo[pl + 3] = ssy;
+            }
+            if r.pct(30) {
+                // vertical padding is cheap under Miri (horizontal padding costs a 64-byte origin)
+                for i in [11usize, 13, 15] {
+                    op.geo[i] = r.range(0, 2);
+                }
+                op.padseed = r.next() | 1;
+            }
+            op.dataseed = r.next();
+            threads[ty as usize].push(op);
+            // decode by reference to Rgb / LinearRgb / Xyb (CONVS 0..5: even = u8, odd = u16)
+            let target = r.below(3);
+            let mut dec = Op::blank(Kind::Conv);
+            dec.which = target * 2 + ty;
+            dec.src = ty;
+            dec.slot = CONVS[dec.which as usize].dst + 6 * ty;
+            threads[ty as usize].push(dec);
+            // encode an Rgb back with the same subsampling (needs an Rgb in the pool: produced by
+            // the first Rgb decode of this thread; until then the op is skipped)
+            let mut enc = Op::blank(Kind::Conv);
+            enc.which = 6 + ty;
+            enc.src = CL_RGB + 6 * ty;
+            enc.slot = ty + 6;
+            enc.cfg = CfgI { ssx, ssy, ..threads[ty as usize][threads[ty as usize].len() - 2].cfg };
+            threads[ty as usize].push(enc);
+        }
+    }
+    RunTrace { seed, knobs: Knobs { slots, preempt: 0, heap: 0, iso: 0, repeat: 0, stress: 0 }, pre: Vec::new(), threads, sched: Vec::new() }
+}
+
 /// Generates the explicit programme of one run from its seed.
 pub fn generate(seed: u64, prof: Profile, miri: bool) -> RunTrace {
     let mut r = Rng::new(seed ^ 0xd51_0000_0000 ^ (prof as u64) << 56);
+    if miri && prof == Profile::Safety && r.pct(50) {
+        return generate_battery(seed, &mut r);
+    }
     let slots = if miri { 6 } else { r.range(6, 12) };
     let maxdim = if miri {
         // mostly tiny; a quarter of the workloads reach a few dozen pixels (size thresholds)
@@ -971,11 +1067,28 @@ pub fn generate(seed: u64, prof: Profile, miri: bool) -> RunTrace {
         preempt: if miri { 0 } else { r.pick(&[0u64, 5, 20, 50, 50, 90]) },
         heap: if miri || r.pct(15) { 0 } else { r.range(1, 255) },
         iso: if miri { 0 } else { u64::from(r.pct(35)) * r.range(1, 2) },
+        repeat: if miri { 1 } else { u64::from(r.pct(50)) },
+        stress: 0,
     };
     // a third of the native runs and two thirds of the Miri workloads are contention scenarios
     let contention = r.pct(if miri { 66 } else { 33 });
-    let palette = if contention { make_palette(&mut r) } else { Vec::new() };
-    let mut g = Gen { r: &mut r, prof, slots, maxdim, palette, populated: vec![false; slots as usize] };
+    // native only: one run in eight sweeps through a long palette of distinct configurations
+    let sweep = !miri && !contention && r.pct(18);
+    let palette = if contention {
+        make_palette(&mut r)
+    } else if sweep {
+        make_sweep_palette(&mut r)
+    } else {
+        Vec::new()
+    };
+    let knobs = if contention && !miri && r.pct(40) { Knobs { stress: r.range(20, 60), ..knobs } } else { knobs };
+    let (nthreads, nops, knobs) = if sweep {
+        // few threads, long programmes, no immediate repetition (it would turn every miss into a hit)
+        (r.range(1, 2), r.range(30, 60), Knobs { repeat: 0, ..knobs })
+    } else {
+        (nthreads, nops, knobs)
+    };
+    let mut g = Gen { r: &mut r, prof, slots, maxdim: if sweep { maxdim.min(6) } else { maxdim }, palette, sweep, sweep_pos: 0, populated: vec![false; slots as usize] };
     let mut pre = Vec::new();
     // the preamble populates the pool: constructors (mostly well formed so that there is
     // something to convert), one of each class first
@@ -1068,6 +1181,39 @@ fn make_palette(r: &mut Rng) -> Vec<CfgI> {
         v.push(c);
     }
     v
+}
+
+/// 12-24 fully specified configurations, all different in primaries x transfer x matrix.
+fn make_sweep_palette(r: &mut Rng) -> Vec<CfgI> {
+    let n = r.range(12, 24);
+    let (p0, t0, m0) = (r.below(10), r.below(N_SUP_TRCS), r.below(13));
+    let (bd, full) = (r.pick(&[8u64, 10]), r.below(2));
+    (0..n)
+        .map(|i| CfgI {
+            bd,
+            ssx: 0,
+            ssy: 0,
+            full,
+            mc: 1 + (m0 + i) % 13,
+            tc: 1 + (t0 + i * 3) % N_SUP_TRCS,
+            cp: 1 + (p0 + i) % 10,
+        })
+        .collect()
+}
+
+/// A copy of a run small enough for the Miri engine: tiny unpadded images, no fresh-process
+/// references, no stress phase, schedule left to Miri.
+pub fn miri_sized(tr: &RunTrace) -> RunTrace {
+    let mut t = tr.clone();
+    for op in t.pre.iter_mut().chain(t.threads.iter_mut().flatten()) {
+        shrink_for_miri(op);
+    }
+    for th in &mut t.threads {
+        th.truncate(12);
+    }
+    t.knobs = Knobs { heap: 0, iso: 0, stress: 0, repeat: 1, preempt: 0, ..t.knobs };
+    t.sched.clear();
+    t
 }
 
 fn shrink_for_miri(op: &mut Op) {
